@@ -107,6 +107,7 @@ func c11Judge(k c11Case) *vlib.Failure {
 	switch k.Passthrough {
 	case 1:
 		bm = built{m: new(cors.Middleware)}
+		bm.m.SetDebug(k.Debug) // documented no-op on a passthrough middleware
 	case 2:
 		var err error
 		bm, err = buildViaH(k.Route, k.Cfg, k.Debug)
@@ -116,6 +117,8 @@ func c11Judge(k c11Case) *vlib.Failure {
 		if err := bm.m.Reconfigure(nil); err != nil {
 			return vlib.Failf("Reconfigure(nil) failed: %v", err)
 		}
+		bm.m.SetDebug(!k.Debug) // documented no-ops on a passthrough middleware
+		bm.m.SetDebug(k.Debug)
 	default:
 		var err error
 		bm, err = buildViaH(k.Route, k.Cfg, k.Debug, k.Req)
@@ -270,7 +273,7 @@ func checkC11(c *vlib.Ctx) (string, string) {
 		route int
 	}
 	var cds []cd
-	cds = append(cds, cd{pass: 1, lit: cfgs[0]}, cd{pass: 2, lit: cfgs[1]}, cd{pass: 2, lit: cfgs[1], dbg: true}, cd{pass: 2, lit: cfgs[2], route: 3})
+	cds = append(cds, cd{pass: 1, lit: cfgs[0]}, cd{pass: 1, lit: cfgs[0], dbg: true}, cd{pass: 2, lit: cfgs[1]}, cd{pass: 2, lit: cfgs[1], dbg: true}, cd{pass: 2, lit: cfgs[2], route: 3})
 	for i, l := range cfgs {
 		cds = append(cds, cd{0, l, false, 0}, cd{0, l, true, 0})
 		// every other construction route, spread over the configurations and debug modes
